@@ -18,6 +18,23 @@ def cfgs_with_san(tier, inc):
     return out
 
 
+def cfgs_default_fp(tier, inc):
+    """default configurations + Clang builds that keep the compiler's own floating-point defaults (no -frounding-math / -ffp-contract=off on the
+    check TU) on FMA-capable targets: whether two AVEL operators in one expression stay two IEEE operations is decided by what the headers make
+    of the compiler's defaults. (g++ is left out: its -ffp-contract=fast default fuses any a*b+c, AVEL or plain scalar code alike.)"""
+    import run
+    out = run.default_configs(tier)
+    dfp = ("-DVP_DEFAULT_FP",)
+    out.append(C.Config(["AVX2", "FMA"], cxx="clang++", std="c++11", opt="-O2", extra=dfp))
+    out.append(C.Config(list(C.EVERYTHING), cxx="clang++", std="c++17", opt="-O1", extra=dfp))
+    out.append(C.Config([], cxx="clang++", std="c++14", opt="-O2", extra=dfp + ("-mfma",)))
+    if tier != "quick":
+        out.append(C.Config(["AVX512F"], cxx="clang++", std="c++20", opt="-O3", extra=dfp))
+        out.append(C.Config(["FMA"], cxx="clang++", std="c++11", opt="-O1", extra=dfp))
+        out.append(C.Config([], cxx="clang++", std="c++17", opt="-O2", extra=dfp + ("-DAVEL_AUTO_DETECT", "-march=native")))
+    return out
+
+
 def cfgs_scalar_sets(tier, inc):
     """default configurations + the scalar instruction-set ladders (X86 bsr/bsf, LZCNT, BMI, POPCNT) at -O1 and -O2, both compilers"""
     import run
@@ -111,7 +128,7 @@ PROPS = {
             "optional_classes": ["range_ends_at_guard_page", "range_starts_after_guard_page", "wild_index_in_inactive_lane", "n_zero_pointer_into_guard_page"]},
     "C09": {"id": "C09", "full_O0": True, "source": "c08.cpp", "cxxflags": ["-DVP_PROP_C09"], "files": INT_VEC_FILES + FLT_VEC_FILES, "min_configs": {"quick": 8, "thorough": 30}, "configs": cfgs_with_O0,
             "optional_classes": ["unaligned_address", "negative_index", "ordinary"]},
-    "C10": {"id": "C10", "source": "c10.cpp", "files": FLT_VEC_FILES + SCALAR_FILES[8:], "min_configs": {"quick": 8, "thorough": 30},
+    "C10": {"id": "C10", "source": "c10.cpp", "files": FLT_VEC_FILES + SCALAR_FILES[8:], "min_configs": {"quick": 8, "thorough": 30}, "configs": cfgs_default_fp,
             "cxxflags": ["-frounding-math", "-ffp-contract=off"], "ref_sources": FPREF, "max_success": {"quick": 1000, "thorough": 10000}},
     "C11": {"id": "C11", "source": "c11.cpp", "files": FLT_VEC_FILES + SCALAR_FILES[8:], "min_configs": {"quick": 8, "thorough": 30},
             "cxxflags": ["-frounding-math", "-ffp-contract=off"], "ref_sources": FPREF, "optional_classes": ["zero_sign_differs_from_libm"]},
